@@ -6,6 +6,8 @@ CONSTANTS
   Fractions <- FracsAll
   Factors = {2, 5}
   Moves <- MovesAll
+  BothMoves <- BothAll
+  Energies = {0, 1, 2, 3, 4}
   OffCone <- Angles
   MaxLevel = 12
 CONSTRAINT LevelBound
